@@ -102,7 +102,8 @@ func checkC19(c *Ctx) {
 		"(X4) inside each top-level fetcher, by backward value provenance: the CSR handed to the issuer call, the PrivateKey of the SVID built and the key material in the file map of the single dir.Write (map literal, loop over a table, maps.Copy/Clone, also reached through a function value) derive from ONE key-generation call site executed in this fetch, no key material comes from a field or global; the SVID's Certificates and the file map derive from this request's result, and the file map from CurrentTrustAnchors. " +
 		"(X5/X6) time values are evaluated to linear forms over {NotBefore, NotAfter, now} through helpers, parameters and loop phis: every point in time the rotation code compares the clock with or sleeps towards is (1-a)*NotBefore + a*NotAfter of ONE certificate with a <= 1/2 and no positive offset; every clock wait in the rotation code is provably <= 1 minute (constant, min(), guarded clamp, helper result, parameter at all call sites); on every path from the non-nil side of a fetch-error test (followed out of phase helpers through their returns, carrying returned constants/flags/enums into the callers' branches) the first clock wait is exactly 10 s and no fetch comes first; no time.Now/After/Sleep/NewTimer/Tick/Since/Until in the rotation code (injected clock). " +
 		"(X7) every return of GetX509SVID (followed through wrappers, func adapters and helpers forwarding the pair) with a nil error carries an SVID known non-nil there (tested against nil, implied by a flag from the same helper call or by an error variable set exactly on the nil side, or the address of a copy behind a flag-field test); (nil, nil), the SVID returned exactly when nil, or the served field returned untested with no related dominating condition is a VIOLATION, other shapes UNDECIDED. " +
-		"NOT decided: the renewal law over all validity windows and failure sequences (only its constants and wiring), that the certificate used for the renewal point is the leaf of the served SVID, the order of store and close inside the critical section, that GetX509SVID waits for readiness at all before reading (only that something does), the private key's cryptographic quality."
+		"(X8) in every function reachable from Run, no store of the served SVID can follow a close of the readiness channel without a new fetch in between, unless signal and store lie in one write-lock critical section (the SVID of the initial fetch is published before, or atomically with, the readiness signal). (X9) no fetcher / issuer call that can execute after the readiness signal runs with the write lock of the served SVID held (a renewal in flight must not block GetX509SVID). In X4 the CurrentTrustAnchors read that reaches the file map is ordered after the issuer request (read before it on every path = VIOLATION, unordered = UNDECIDED). " +
+		"NOT decided: the renewal law over all validity windows and failure sequences (only its constants and wiring), that the certificate used for the renewal point is the leaf of the served SVID, that GetX509SVID waits for readiness at all before reading (only that something does), the private key's cryptographic quality."
 	r.Assumptions = append(r.Assumptions, "type-based lock/channel identity (named type, field)", "crypto GenerateKey functions return a fresh key on every call (crypto/rand)",
 		"unexported functions of crypto/spiffe are only called from the call sites visible in the package", "a helper that is handed a function literal and calls its parameter does so synchronously, before returning",
 		"the served-SVID field is nil (flag false) until the first store; variables captured by a callback are not modified concurrently while it runs")
@@ -110,6 +111,8 @@ func checkC19(c *Ctx) {
 	r.Rule("C19.X2-ready-once", "Run closes the readiness channel exactly once on every path that started the fetch; Ready selects on it and ctx", 3)
 	r.Rule("C19.X3-svid", "SVID field guarded; stores only of successful fetch results; GetX509SVID serves it", 4)
 	r.Rule("C19.X4-fresh-key", "one key generated per fetch flows to CSR, SVID.PrivateKey and key file; one dir.Write with key+chain+anchors", 3)
+	r.Rule("C19.X8-publish-before-ready", "the SVID of the initial fetch is stored before readiness is signalled, or in the same write-lock section", 1)
+	r.Rule("C19.X9-renewal-unlocked", "fetches made after readiness do not hold the write lock of the served SVID", 1)
 	r.Rule("C19.X7-svid-or-error", "GetX509SVID never returns a nil SVID together with a nil error", 1)
 	r.Rule("C19.X6-renewal-args", "every renewal point is derived from NotBefore and NotAfter of one certificate", 1)
 	r.Rule("C19.X5-constants", "renewal point at or before half-life; wake-up <= 1 minute; retry 10 s; injected clock", 3)
@@ -131,6 +134,7 @@ func checkC19(c *Ctx) {
 	x.checkX4()
 	x.checkX5()
 	x.checkX7()
+	x.checkOrder()
 	x.flushUndecided()
 
 	// the file set is published by dir.Write: its crash-consistency rules (shared with C18)
